@@ -36,7 +36,7 @@ def search_lines(rng, n=None):
 def byte_lines(rng, base, n):
     return [(l, {'kind': 'bytes'}) for l in gen.bytes_mutations(rng, base, n)]
 
-REPLS = ['REDACTED', 'X"y\\<é&>', '', 'a b', 'REDACTED_0000', '中']
+REPLS = ['REDACTED', 'X"y\\<é&>', '', 'a b', 'REDACTED_0000', '中', 'n.a. US$ 0.00', '100% %s %d']
 
 def value_cfgs(rng, n, with_ns=True):
     """flag combinations without field-name redaction and without the selective mode"""
